@@ -628,6 +628,32 @@ def run_temperatures(acc, mode):
                         same_ = o[0] == ref[0] and (o[0] != "ok" or (dict(o[1]._units) == dict(ref[1]._units) and (o[1].magnitude == ref[1].magnitude if mode == "Fraction" else abs(float(o[1].magnitude) - float(ref[1].magnitude)) <= 1e-9 * abs(float(ref[1].magnitude)))))
                         if not same_:
                             acc.violation(["covariance", op, "temperature-scales", "product-depends-on-the-scale-used", mode], {"mode": mode, "temperature": list(sa), "reference": list(outs[0][0]), "partner": list(partner), "order": order}, show(ref), show(o))
+    # an operand that was rescaled IN PLACE (also across dimensions, through a context) behaves in every operator
+    # like a new quantity with the same magnitude and units
+    import operator as _o
+
+    preg = regs.default("Fraction" if mode == "Fraction" else "float")
+    PQ = preg.Quantity
+    partners = [("1", "terahertz"), ("1000", "gigahertz"), ("1", "meter"), ("3", "second"), ("2", "")]
+    rescales = [("500", "nanometer", lambda q: q.ito("terahertz", "sp")), ("500", "nanometer", lambda q: q.ito("micrometer")), ("2", "kilometer", lambda q: q.ito_root_units()),
+                ("3", "terahertz", lambda q: q.ito("nanometer", "sp")), ("2", "kilometer / hour", lambda q: q.ito_base_units())]
+    for (ms, us, resc), look_first in itertools.product(rescales, (True, False)):
+        q = mk_leaf(preg, lm, (ms, us))
+        if look_first:
+            warm(q)
+            run_op(lambda: q + mk_leaf(preg, lm, (ms, us)))
+        if run_op(lambda: resc(q))[0] != "ok":
+            continue
+        twin = PQ(q.magnitude, q.units)
+        for (pm, pu), (opn, op), order in itertools.product(partners, (("+", _o.add), ("-", _o.sub), ("*", _o.mul), ("/", _o.truediv), ("<", _o.lt), ("==", _o.eq)), ("q.x", "x.q")):
+            acc.ev()
+            acc.nt(("rescaled", mode, ms, us, look_first, pm, pu, opn, order))
+            x = mk_leaf(preg, lm, (pm, pu))
+            o1 = run_op(lambda: op(q, x) if order == "q.x" else op(x, q))
+            o2 = run_op(lambda: op(twin, x) if order == "q.x" else op(x, twin))
+            same_ = o1[0] == o2[0] and (o1[1] == o2[1] if o1[0] != "ok" or not hasattr(o1[1], "_units") else (dict(o1[1]._units) == dict(o2[1]._units) and (o1[1].magnitude == o2[1].magnitude or abs(float(o1[1].magnitude) - float(o2[1].magnitude)) <= 1e-12 * abs(float(o2[1].magnitude)))))
+            if not same_:
+                acc.violation(["inplace-consistency", opn, "after-in-place-rescale", "operand-behaves-unlike-a-new-quantity-with-the-same-units", mode], {"mode": mode, "quantity": [ms, us], "units_now": str(q.units), "looked_at_before": look_first, "partner": [pm, pu], "order": order}, show(o2), show(o1))
     acc.sample({"clause": "covariance", "what": "temperature comparisons", "mode": mode, "example": "Q(26.85, degC) > Q(280, K)  ==  Q(300, K) > Q(280, K)"})
 
 
